@@ -334,6 +334,8 @@ pub fn arb_nas() -> BoxedStrategy<NasNum> {
         1 => Just("0".to_string()),
         1 => "[1-9]0{1,20}",
         1 => "9{1,40}",
+        // the edges of the 64-bit integers (operands a fast path would take for machine integers)
+        1 => prop::sample::select(vec!["9223372036854775807", "9223372036854775808", "9223372036854775806", "18446744073709551615", "18446744073709551616", "4611686018427387904", "4294967296", "2147483648"]).prop_map(|s| s.to_string()),
     ];
     (any::<bool>(), digits, prop_oneof![3 => Just(0u32), 3 => 1u32..8, 2 => 8u32..=40], prop_oneof![4 => Just(0i32), 2 => -10i32..10, 2 => -100i32..=100], any::<u64>())
         .prop_map(|(neg, digits, scale, exp, seed)| NasNum { neg, digits, scale, exp, seed })
@@ -411,7 +413,11 @@ impl Check for C19Nas {
         tier.pick(40_000, 1_500_000)
     }
     fn strategy(&self, _t: Tier) -> BoxedStrategy<CaseNas> {
-        (prop::sample::select(NAS_OPS.to_vec()), vec(arb_nas(), 1..5), prop::bool::weighted(0.3)).prop_map(|(op, args, equal_pair)| CaseNas { op: op.to_string(), args, equal_pair }).boxed()
+        // one case in twelve: plain integers at the edges of the 64-bit range with independent
+        // signs (what a fast path for machine integers would accept, and overflow on)
+        let edge = (prop::sample::select(vec!["9223372036854775807", "9223372036854775808", "9223372036854775806", "18446744073709551615", "4611686018427387904", "1", "2", "4294967296", "3037000500"]), any::<bool>(), any::<u64>()).prop_map(|(d, neg, seed)| NasNum { neg, digits: d.to_string(), scale: 0, exp: 0, seed });
+        let args = prop_oneof![11 => vec(arb_nas(), 1..5), 1 => vec(edge, 2..4)];
+        (prop::sample::select(NAS_OPS.to_vec()), args, prop::bool::weighted(0.3)).prop_map(|(op, args, equal_pair)| CaseNas { op: op.to_string(), args, equal_pair }).boxed()
     }
     fn check(&self, c: &CaseNas) -> CaseResult {
         let canon_op = match c.op.as_str() {
